@@ -6,7 +6,10 @@ PID = "C20"
 RULE = ("1-16 tasks each put their coroutine in a Syscall state and wait for read (or write) readiness of their own socketpair end with a 3 s timeout, for 1-3 consecutive waits inside the same call; the driver makes descriptors ready in random order 100+ ms after "
         "the wait began; 0-1 waiter per case is never made ready. Observations: wait start/return stamps in the task, the time each descriptor was made ready, and the `resume` hook on the event loop (token, whether the token was registered). "
         "Oracle: a ready descriptor's waiter returns within 1 s (not at its 3 s timeout) AND the loop saw a readiness event carrying that coroutine's id in that window; a never-ready waiter does not return before its timeout; "
-        "every registered-token resume belongs to a coroutine whose descriptor had been made ready. Non-trivial = at least one wait was woken by a matching readiness event; distinct = (waiters, rounds, interest, never-ready).")
+        "every registered-token resume belongs to a coroutine whose descriptor had been made ready. "
+        "Every fourth case runs interest histories instead: 1-4 sockets, each with 1-3 segments of 2-4 steps from {wait read/write made ready, wait read/write that runs into a 120 ms timeout, del_read_event, del_write_event, del_event}; every segment is run by a fresh coroutine "
+        "(the descriptor is handed over), waits re-check the socket like a hooked call and wait again after a wake-up caused by the other direction; each wait that is made ready must be woken within 1 s by a readiness event carrying its own coroutine id, whatever happened to the descriptor's interests before. "
+        "Half of the history cases add a socket whose read and write directions are waited on by two coroutines at the same time. Non-trivial = at least one wait was woken by a matching readiness event; distinct = (waiters, rounds, interest, never-ready).")
 
 def run(tier, seed, t0):
     cases = cl.run_cases(PID, "c20", seed, tier, 160 if tier == "thorough" else 24, case_timeout=60, jobs=12)
